@@ -16,7 +16,7 @@ RUN = os.path.join(VERIF, "harness", "jsonclass_run.py")
 FORMULAS = {
     "C07": {"beans": {"DumpSucceeds", "LoadSucceeds", "RoundTrip", "LoadAsSpecified", "OnlyJsonOut"},
             "rpc": {"RpcTransparent", "LoadSucceeds"}},
-    "C15": {"plain": {"DumpSucceeds", "OnlyJsonOut", "LoadSucceeds", "RoundTrip", "PureDump", "PureLoad"},
+    "C15": {"plain": {"DumpSucceeds", "OnlyJsonOut", "BackendSerialisable", "LoadSucceeds", "RoundTrip", "PureDump", "PureLoad"},
             "beans": {"PureDump", "PureLoad", "OnlyJsonOut"}, "fail": {"PureDump", "PureLoad", "OnlyJsonOut", "DumpSucceeds"}, "custom": {"PureDump"}, "rpc": {"PureDump"}},
     "C20": {"custom": {"DumpSucceeds", "DumpAsSpecified"}, "beans": {"DumpAsSpecified"}},
 }
